@@ -312,3 +312,57 @@ func FreezeGlobals() {}
 
 // EndPath ends the current path normally (used by the os.Exit model).
 func EndPath() { panic("zzvp: symbolic only") }
+
+// ---- translator self-test support ----
+
+// File returns the content of a file of the repository (path relative to its root).
+func File(rel string) []byte {
+	root := os.Getenv("VP_REPO")
+	if root == "" {
+		root = "/repo"
+	}
+	b, err := os.ReadFile(root + "/" + rel)
+	if err != nil {
+		panic(err)
+	}
+	return b
+}
+
+// Seed returns VERIF_SEED.
+func Seed() uint64 {
+	var n uint64
+	fmt.Sscan(os.Getenv("VERIF_SEED"), &n)
+	return n
+}
+
+// Emits collects the values emitted by a native self-test run.
+var Emits []string
+
+// Emit records a concrete value; the symbolic executor (in fully concrete mode) and the
+// native run must emit identical sequences.
+func Emit(name string, v any) {
+	var s string
+	switch x := v.(type) {
+	case nil:
+		s = "nil"
+	case error:
+		s = "error"
+	case bool:
+		s = fmt.Sprint(x)
+	case []byte:
+		s = "b:" + hex.EncodeToString(x)
+	case string:
+		s = "s:" + x
+	case int:
+		s = fmt.Sprint(x)
+	case uint32:
+		s = fmt.Sprint(x)
+	case uint64:
+		s = fmt.Sprint(x)
+	case uint16:
+		s = fmt.Sprint(x)
+	default:
+		s = fmt.Sprintf("ptr")
+	}
+	Emits = append(Emits, name+"="+s)
+}
